@@ -201,19 +201,28 @@ def check_coercion(case):
 
 def check_atan2(case):
     x, y = case['x'], case['y']
-    env = Env(vars={'v_x': x, 'v_y': y})
+
+    def entry(v, how):
+        # the coordinate as a number, as text spelling it, or (0 and 1 only) as a logical
+        if how == 'text':
+            return ('%d' % v) if float(v).is_integer() and abs(v) < 1e15 and (v != 0 or math.copysign(1, v) > 0) else repr(float(v))
+        if how == 'bool' and v in (0, 1):
+            return bool(v)
+        return v
+    vx, vy = entry(x, case.get('sx', 'num')), entry(y, case.get('sy', 'num'))
+    env = Env(vars={'v_x': vx, 'v_y': vy})
     f = 'ATAN2(v_x,v_y)'
     r = env.parse(f)
     if x == 0 and y == 0:
         if r['error'] != '#DIV/0!':
-            raise Violation('ATAN2(0,0) -> %r, expected #DIV/0!' % (r,), r['error'] or enc(r['result']), '#DIV/0!')
+            raise Violation('ATAN2(%r,%r) -> %r, expected #DIV/0! (the origin)' % (vx, vy, r), r['error'] or enc(r['result']), '#DIV/0!')
         return
     g = r['result']
     if r['error'] is not None or isinstance(g, bool) or not isinstance(g, (int, float)):
-        raise Violation('ATAN2(%r,%r) -> %r: the angle of the point exists' % (x, y, r), r['error'] or enc(g), math.atan2(y, x))
+        raise Violation('ATAN2(%r,%r) -> %r: the angle of the point exists' % (vx, vy, r), r['error'] or enc(g), math.atan2(y, x))
     rad = math.hypot(x, y)
     if not (-PI - 1e-12 < g <= PI + 1e-12) or not close(rad * math.cos(g), x, 1e-9, 1e-9 * rad) or not close(rad * math.sin(g), y, 1e-9, 1e-9 * rad):
-        raise Violation('ATAN2(%r,%r) = %r is not the angle of the point (x,y)' % (x, y, g), g, math.atan2(y, x))
+        raise Violation('ATAN2(%r,%r) = %r is not the angle of the point (x,y)' % (vx, vy, g), g, math.atan2(y, x))
 
 
 def check_log_power(case):
@@ -426,11 +435,12 @@ LAWS = [
         required=('spelling:.5', 'spelling:-.25', 'spelling:+3', 'spelling:007', 'w:true', 'w:false'),
         rule='f("x") = f(x) for repr spellings and for 17 other spellings of numbers as text (leading dot, explicit sign, leading/trailing zeros) given as variable or string literal, f(TRUE) = f(1), f(FALSE) = f(0) for every unary function; non-numeric text -> error'),
     Law('atan2', check_atan2, quick=3000, thorough=100000,
-        strategy=st.fixed_dictionaries({'x': st.one_of(st.sampled_from([0.0, 1.0, -1.0, 0.5, -2.0]), reals()), 'y': st.one_of(st.sampled_from([0.0, 0.0, 1.0, -1.0]), reals())}),
-        classes=lambda c: (('origin' if c['x'] == 0 and c['y'] == 0 else ('x-axis' if c['y'] == 0 else ('y-axis' if c['x'] == 0 else 'quadrant'))),),
-        required=('origin', 'x-axis', 'y-axis', 'quadrant'), key=lambda c: 'x-axis' if c['y'] == 0 and c['x'] != 0 else '',
+        strategy=st.fixed_dictionaries({'x': st.one_of(st.sampled_from([0.0, 1.0, -1.0, 0.5, -2.0]), reals()), 'y': st.one_of(st.sampled_from([0.0, 0.0, 1.0, -1.0]), reals()),
+                                        'sx': st.sampled_from(['num', 'num', 'text', 'bool']), 'sy': st.sampled_from(['num', 'num', 'text', 'bool'])}),
+        classes=lambda c: (('origin' if c['x'] == 0 and c['y'] == 0 else ('x-axis' if c['y'] == 0 else ('y-axis' if c['x'] == 0 else 'quadrant'))),) + (('origin-as-text',) if c['x'] == 0 and c['y'] == 0 and 'text' in (c['sx'], c['sy']) else ()),
+        required=('origin', 'x-axis', 'y-axis', 'quadrant', 'origin-as-text'), key=lambda c: 'x-axis' if c['y'] == 0 and c['x'] != 0 else '',
         nontrivial=lambda c: not (c['x'] == 1 and c['y'] in (1, 0.8)),
-        rule='ATAN2(x,y) over all four quadrants and both axes: r cos t = x, r sin t = y, t in (-pi,pi]; #DIV/0! exactly at the origin'),
+        rule='ATAN2(x,y) over all four quadrants and both axes, each coordinate given as a number, as text spelling it or (0, 1) as a logical: r cos t = x, r sin t = y, t in (-pi,pi]; #DIV/0! exactly at the origin'),
     Law('log_power', check_log_power, quick=3000, thorough=100000,
         strategy=st.fixed_dictionaries({'k': st.sampled_from(['LOG', 'POWER']), 'a': st.one_of(reals(), st.sampled_from([0.0, 1.0, 2.0, 10.0])),
                                         'b': st.one_of(reals().filter(lambda v: abs(v) < 400), st.sampled_from([0.0, 1.0, 2.0, 10.0, -1.0, 0.5, 3.0])), 'ten': st.booleans()}),
